@@ -312,6 +312,40 @@ def enosys(ctx):
                             ok = False
             ctx.ob('R-C15d', '%s:falls-back-to %s' % (fn, '/'.join(alt)), ok, loc=prims[0]['loc'],
                    detail='after the primary facility reported "missing", the same invocation reaches %s' % '/'.join(alt), fn=f.q)
+    # splice probe -> read/write fallback: buffers allocated in splice mode (pipe pairs, no data area) must not
+    # survive the demotion in the per-thread cache, where the read/write mode would reuse them as data buffers
+    if prog.has_fn('check_splice_available') and prog.global_for('iv_fd_pump.c', 'splice_available') is not None:
+        f = prog.fn('check_splice_available')
+        puts = [e for e in f.events() if is_call(e, 'buf_put')]
+        lowers = [e for e in f.events() if e['ev'] == 'store' and strip(e['lhs']).get('k') == 'var' and strip(e['lhs'])['name'] == 'splice_available'
+                  and canon(e.get('rhs')) == '0']
+        if not lowers:
+            raise AnalysisBroken('check_splice_available: demotion store not found')
+        def tr(e, s_):
+            return True if e in puts else s_
+        _, ev_in = forward(f, False, tr, lambda a, b: a or b)
+        bad = [e for e in lowers if ev_in.get((e['_b'], e['_i']))]
+        ctx.ob('R-C15d', 'check_splice_available:probe-buffers-not-cached-on-demotion', not bad, loc=(bad or lowers)[0]['loc'],
+               detail='no path caches a probe buffer (buf_put) and then lowers splice_available: splice-mode buffers have no data area '
+                      'and would be reused by the read/write fallback', fn=f.q)
+        allocs = [e for e in f.events() if e['ev'] == 'store' and strip(e.get('rhs', {})).get('k') == 'call' and strip(e['rhs']).get('callee') == 'buf_alloc']
+        okf = True
+        hd = holding(f)
+        for lo in lowers:
+            A = hd.get((lo['_b'], lo['_i']), frozenset())
+            for a_ in allocs:
+                v = canon(a_['lhs'])
+                # allocated and non-NULL on this path => freed before the demotion
+                mpa = must_pass(f, lambda e: e is a_)
+                if not mpa.get((lo['_b'], lo['_i'])):
+                    continue
+                if any(x[0] == '==' and x[1] == v and x[2] == '0' for x in A):
+                    continue
+                mpf = must_pass(f, lambda e, v=v: is_call(e, '__buf_free') and canon(e['args'][0]) == v)
+                if not mpf.get((lo['_b'], lo['_i'])):
+                    okf = False
+        ctx.ob('R-C15d', 'check_splice_available:probe-buffers-freed-on-demotion', okf, loc=lowers[0]['loc'],
+               detail='every probe buffer that was allocated is released with __buf_free before splice_available is lowered', fn=f.q)
     # ENOSYS/EPERM/EINVAL are the handled errnos: the demotion is on an errno-test edge, other errors are returned
     for (fn, prim, alt, flag) in PAIRS[:3]:
         f = prog.fn(fn)
